@@ -19,6 +19,17 @@ theorem of `Props/C18.lean` (`have hgen : MapCfg.gen = MapCfg.std := by decide`,
 of this file are about the `std` configurations.
 -/
 
+/-- **what the typed-map theorems need of the classified bodies** (audit C18 F7: stated so that behaviourally
+identical sources are accepted). Every assertion is of the comma-ok form (`t, _ := x.(V)`: the nil interface reads
+back as the zero value); the `Range` closure asserts key and value comma-ok and returns the callback's result; every
+body has the call-[guard]-assert-return shape and the other methods forward (`forwards`). The absent-key guard
+`if !ok { return zero, false }` is **free** in `Load`, `LoadAndDelete` and `Swap` — with a comma-ok assertion it changes
+nothing, because there sync.Map answers `(nil, false)` for an absent key (`guarded_commaOk`) — but it must be
+**absent** in `LoadOrStore`, where `loaded = false` comes with the value just stored, not with nil. -/
+def MapCfg.sound (cfg : MapCfg) : Bool :=
+  cfg.loadAssert == .commaOk && cfg.ladAssert == .commaOk && cfg.losAssert == .commaOk && cfg.swapAssert == .commaOk
+    && !cfg.losGuard && cfg.rangeBody == MapCfg.std.rangeBody && cfg.forwards
+
 section Typed
 set_option linter.unusedSectionVars false
 variable {K UK V UV : Type} [DecidableEq UK] [DecidableEq UV]
@@ -52,12 +63,69 @@ theorem closureRun_std (kk : Kind K UK) (vk : Kind V UV) (f : K → V → Bool) 
     closureRun kk vk f k v MapCfg.std.rangeBody {} = .ok ([(kk.ofAny k, vk.ofAny v)], f (kk.ofAny k) (vk.ofAny v)) := by
   simp [MapCfg.std, closureRun, assertT]
 
+theorem swap_absent (m : SMap UK UV) (k : Any UK) (v : Any UV) :
+    (m.swap k v).2.2 = false → (m.swap k v).2.1 = none := by
+  unfold SMap.swap; split <;> simp
+
 theorem tRange_std (kk : Kind K UK) (vk : Kind V UV) (m : SMap UK UV) (f : K → V → Bool) :
     tRange MapCfg.std kk vk m f =
       .ok ((m.rangeWith (fun k v => f (kk.ofAny k) (vk.ofAny v))).map (fun p => (kk.ofAny p.1, vk.ofAny p.2))) := by
   unfold tRange SMap.rangeWith
   simp only [closureRun_std]
   exact rangeG_pure (fun k v => f (kk.ofAny k) (vk.ofAny v)) (fun k v => (kk.ofAny k, vk.ofAny v)) m.range
+
+/-- the typed wrapper with ANY sound configuration returns what sync.Map returns, read back into the type parameters -/
+theorem typed_of_sound (cfg : MapCfg) (hs : MapCfg.sound cfg = true) (kk : Kind K UK) (vk : Kind V UV) (m : SMap UK UV) (k : K)
+    (v : V) (f : K → V → Bool) :
+    tLoad cfg kk vk m k = (m, .ok (vk.ofAny (m.load (kk.toAny k)).1, (m.load (kk.toAny k)).2)) ∧
+    tLoadAndDelete cfg kk vk m k =
+      ((m.loadAndDelete (kk.toAny k)).1,
+        .ok (vk.ofAny (m.loadAndDelete (kk.toAny k)).2.1, (m.loadAndDelete (kk.toAny k)).2.2)) ∧
+    tLoadOrStore cfg kk vk m k v =
+      ((m.loadOrStore (kk.toAny k) (vk.toAny v)).1,
+        .ok (vk.ofAny (m.loadOrStore (kk.toAny k) (vk.toAny v)).2.1, (m.loadOrStore (kk.toAny k) (vk.toAny v)).2.2)) ∧
+    tSwap cfg kk vk m k v =
+      ((m.swap (kk.toAny k) (vk.toAny v)).1,
+        .ok (vk.ofAny (m.swap (kk.toAny k) (vk.toAny v)).2.1, (m.swap (kk.toAny k) (vk.toAny v)).2.2)) ∧
+    tRange cfg kk vk m f =
+      .ok ((m.rangeWith (fun k' v' => f (kk.ofAny k') (vk.ofAny v'))).map (fun p => (kk.ofAny p.1, vk.ofAny p.2))) := by
+  simp only [MapCfg.sound, Bool.and_eq_true, beq_iff_eq, Bool.not_eq_true'] at hs
+  obtain ⟨⟨⟨⟨⟨⟨h1, h2⟩, h3⟩, h4⟩, h5⟩, h6⟩, _⟩ := hs
+  refine ⟨?_, ?_, ?_, ?_, ?_⟩
+  · simp only [tLoad, h1]
+    rw [guarded_commaOk vk _ _ _ (load_absent m _)]
+  · simp only [tLoadAndDelete, h2]
+    rw [guarded_commaOk vk _ _ _ (loadAndDelete_absent m _)]
+  · simp only [tLoadOrStore, h3, h5, guarded, Bool.false_and, Bool.false_eq_true, if_false, assertT, Out.map]
+  · simp only [tSwap, h4]
+    rw [guarded_commaOk vk _ _ _ (swap_absent m _ _)]
+  · have : tRange cfg kk vk m f = tRange MapCfg.std kk vk m f := by simp only [tRange, h6]
+    rw [this]; exact tRange_std kk vk m f
+
+/-- a value stored through the wrapper is found again (sync.Map's `Store` then `Load` of the same key) -/
+theorem smap_load_store (m : SMap UK UV) (a : Any UK) (b : Any UV) : (m.store a b).load a = (b, true) := by
+  have hfind : (m.put a b).find a = some b := by
+    unfold SMap.put
+    split
+    · rename_i hsome
+      unfold SMap.find at hsome ⊢
+      induction m with
+      | nil => simp at hsome
+      | cons p rest ih =>
+        by_cases hp : p.1 = a
+        · simp [hp]
+        · have hp' : (p.1 == a) = false := by simpa using hp
+          simp only [List.map_cons, hp', Bool.false_eq_true, if_false, List.find?_cons]
+          simp only [List.find?_cons, hp'] at hsome
+          exact ih hsome
+    · rename_i hnone
+      unfold SMap.find at hnone ⊢
+      have hn : m.find? (fun p => p.1 == a) = none := by
+        cases h : m.find? (fun p => p.1 == a) with
+        | none => rfl
+        | some x => simp [h] at hnone
+      simp [List.find?_append, hn]
+  simp [SMap.store, SMap.load, hfind]
 
 end Typed
 
